@@ -10,8 +10,10 @@ import (
 	"runtime"
 	"runtime/debug"
 	"sort"
+	"strconv"
 	"strings"
 	"sync"
+	"sync/atomic"
 	"testing"
 
 	"github.com/whoisnian/glb/httpd"
@@ -61,7 +63,8 @@ type record struct {
 	Route         int
 	HadPre        bool
 	HadPost       bool
-	Inner         *record // the request this one's handler forwarded through the same Mux, if any
+	FirstIDs      []string // what helper goroutines of the request got from GetID() before anybody else asked
+	Inner         *record  // the request this one's handler forwarded through the same Mux, if any
 	InnerEscaped  any
 }
 
@@ -157,6 +160,28 @@ func newTable(relayMode int) *table {
 	t.mux.HandleNoRoute(t.handler(-1))
 	t.mux.HandleRelay(func(s *httpd.Store) {
 		rec := s.R.Context().Value(ctxKey{}).(*record)
+		if n, _ := strconv.Atoi(s.R.Header.Get("X-First-ID-Readers")); n > 0 {
+			// the first thing that happens to this request: helper goroutines working for it (an audit trail, a tracing
+			// span) ask for its ID at the same moment, before anybody else has
+			ids := make([]string, n)
+			var arrived atomic.Int32
+			var wg sync.WaitGroup
+			for i := 0; i < n; i++ {
+				wg.Add(1)
+				go func(i int) {
+					defer wg.Done()
+					arrived.Add(1)
+					for spin := 0; arrived.Load() < int32(n); spin++ {
+						if spin > 100 {
+							runtime.Gosched()
+						}
+					}
+					ids[i] = strings.Clone(s.GetID())
+				}(i)
+			}
+			wg.Wait()
+			rec.FirstIDs = ids
+		}
 		rec.Pre = takeSnap(t, s)
 		rec.HadPre = true
 		defer func() {
@@ -223,6 +248,7 @@ type request struct {
 	writes       bool
 	forward      *request // the handler forwards this request through the same Mux first (Store.W as the writer)
 	swap         string   // "", "W", "P", "WP": the handler replaces Store.W / Store.P by objects of its own
+	firstReaders int      // that many goroutines of the request ask for its ID at once, before anybody else does
 }
 
 func (rq request) String() string {
@@ -253,6 +279,9 @@ func (t *table) serve(rq request) (rec *record, escaped any) {
 	}
 	if rq.swap != "" {
 		req.Header.Set("X-Swap", rq.swap)
+	}
+	if rq.firstReaders > 0 {
+		req.Header.Set("X-First-ID-Readers", strconv.Itoa(rq.firstReaders))
 	}
 	if rq.forward != nil {
 		req.Header.Set("X-Forward-Method", rq.forward.method)
@@ -309,6 +338,11 @@ func (t *table) judgeOne(rq request, rec *record, escaped any, compareFresh bool
 	}
 	if rec.Pre.Status != 0 {
 		return fmt.Sprintf("W.Status on entry = %d, want 0", rec.Pre.Status)
+	}
+	for _, id := range rec.FirstIDs {
+		if id != rec.Pre.ID {
+			return fmt.Sprintf("goroutines of one request asking for its ID at the same time, as the first to ask, got %q; the relay then got %q", rec.FirstIDs, rec.Pre.ID)
+		}
 	}
 	if rec.Pre.ID != rec.In.ID || rec.In.ID != rec.Post.ID {
 		return fmt.Sprintf("request ID changed during the request: %q / %q / %q", rec.Pre.ID, rec.In.ID, rec.Post.ID)
@@ -465,6 +499,10 @@ func runMachine(t *rapid.T, concurrent bool) {
 		if rapid.IntRange(0, 5).Draw(t, "swaps") == 0 {
 			rq.swap = rapid.SampledFrom([]string{"W", "P", "WP"}).Draw(t, "swap")
 			ev.Label("request:handler_replaces_Store_W_or_P")
+		}
+		if rapid.IntRange(0, 5).Draw(t, "idReaders") == 0 {
+			rq.firstReaders = rapid.IntRange(2, 4).Draw(t, "firstReaders")
+			ev.Label("request:its_ID_is_first_read_by_several_goroutines_at_once")
 		}
 		if rapid.IntRange(0, 5).Draw(t, "forwards") == 0 {
 			rq.forward = &request{method: rapid.SampledFrom([]string{"GET", "POST"}).Draw(t, "fwdMethod"), path: genPathFor(tb.routes).Draw(t, "fwdPath")}
